@@ -57,8 +57,14 @@ Lemma sg_mask_set_flag t : sg_mask (tx_set_flag c_HTP_MULTI_PACKET_HEAD t) = sg_
 Proof. unfold sg_mask, tx_set_flag, flag_set. cbn [t_flags set]. cbn. rewrite sg_ldiff_lor. reflexivity. Qed.
 
 (* ---- the invariants ---- *)
-(* between two passes of the loop, transaction 0 being parsed: p = the bytes of the current line seen so far *)
-Record sg_cin (c : connp) (d : bytes) (rd : nat) (p : bytes) (hdr : option bytes) (st : req_state) (prev : option req_state)
+(* the part of the connection that does not change while one request is parsed: the transactions before the current one
+   (request side complete, no response offered so far) and the connection flags *)
+Record sg_world := mk_sg_world { w_done : list (option tx); w_flags : N }.
+Definition sg_w0 : sg_world := mk_sg_world [] 0%N.
+Definition sg_settx (w : sg_world) (t : tx) (c : connp) : connp := c <| c_txs := w_done w ++ [Some t] |>.
+
+(* between two passes of the loop, transaction number |w_done w| being parsed: p = the bytes of the current line seen so far *)
+Record sg_cinw (w : sg_world) (c : connp) (d : bytes) (rd : nat) (p : bytes) (hdr : option bytes) (st : req_state) (prev : option req_state)
               (rh : option nat) (t : tx) : Prop := mk_sg_cin {
   ci_status : sg_live (c_in_status c);
   ci_state : c_in_state c = st;
@@ -72,47 +78,77 @@ Record sg_cin (c : connp) (d : bytes) (rd : nat) (p : bytes) (hdr : option bytes
   ci_hdr : k_header (c_in c) = hdr;
   ci_rh : k_receiver_hook (c_in c) = rh;
   ci_rcv : (k_receiver (c_in c) <= rd)%nat;
-  ci_tx : c_in_tx c = Some 0%nat;
-  ci_txs : c_txs c = [Some t];
-  ci_shift : c_txs_shifted c = 0%nat }.
+  ci_tx : c_in_tx c = Some (length (w_done w));
+  ci_txs : c_txs c = w_done w ++ [Some t];
+  ci_shift : c_txs_shifted c = 0%nat;
+  ci_flags : c_conn_flags c = w_flags w;
+  ci_onext : c_out_next_tx_index c = 0%nat }.
 
 (* between two calls of htp_connp_req_data *)
-Record sg_mid (c : connp) (p : bytes) (hdr : option bytes) (st : req_state) (rh : option nat) (t : tx) : Prop := mk_sg_mid {
+Record sg_midw (w : sg_world) (c : connp) (p : bytes) (hdr : option bytes) (st : req_state) (rh : option nat) (t : tx) : Prop := mk_sg_mid {
   mi_status : sg_live (c_in_status c);
   mi_state : c_in_state c = st;
   mi_prev : c_in_state_previous c = Some st;
   mi_buf : sg_olist (k_buf (c_in c)) = p;
   mi_hdr : k_header (c_in c) = hdr;
   mi_rh : k_receiver_hook (c_in c) = rh;
-  mi_tx : c_in_tx c = Some 0%nat;
-  mi_txs : c_txs c = [Some t];
-  mi_shift : c_txs_shifted c = 0%nat }.
+  mi_tx : c_in_tx c = Some (length (w_done w));
+  mi_txs : c_txs c = w_done w ++ [Some t];
+  mi_shift : c_txs_shifted c = 0%nat;
+  mi_flags : c_conn_flags c = w_flags w;
+  mi_onext : c_out_next_tx_index c = 0%nat }.
+Arguments ci_status {w}. Arguments ci_state {w}. Arguments ci_prev {w}. Arguments ci_data {w}. Arguments ci_len {w}. Arguments ci_read {w}.
+Arguments ci_rd {w}. Arguments ci_cons {w}. Arguments ci_seen {w}. Arguments ci_hdr {w}. Arguments ci_rh {w}. Arguments ci_rcv {w}.
+Arguments ci_tx {w}. Arguments ci_txs {w}. Arguments ci_shift {w}. Arguments ci_flags {w}. Arguments ci_onext {w}.
+Arguments mi_status {w}. Arguments mi_state {w}. Arguments mi_prev {w}. Arguments mi_buf {w}. Arguments mi_hdr {w}. Arguments mi_rh {w}.
+Arguments mi_tx {w}. Arguments mi_txs {w}. Arguments mi_shift {w}. Arguments mi_flags {w}. Arguments mi_onext {w}.
 
-Lemma sg_cin_slot c d rd p hdr st prev rh t : sg_cin c d rd p hdr st prev rh t -> tx_slot c 0 = Some t.
-Proof. intros H. unfold tx_slot. rewrite (ci_shift _ _ _ _ _ _ _ _ _ H), (ci_txs _ _ _ _ _ _ _ _ _ H). reflexivity. Qed.
+Lemma sg_nth_app_len {A} (l : list A) x : nth_error (l ++ [x]) (length l) = Some x.
+Proof. rewrite nth_error_app2 by lia. rewrite Nat.sub_diag. reflexivity. Qed.
+Lemma sg_slot_at c done t : c_txs c = done ++ [Some t] -> c_txs_shifted c = 0%nat -> tx_slot c (length done) = Some t.
+Proof.
+  intros H1 H2. unfold tx_slot. rewrite H2, H1. assert (E0 : (length done <? 0)%nat = false) by reflexivity. rewrite E0.
+  rewrite Nat.sub_0_r, sg_nth_app_len. reflexivity.
+Qed.
+Lemma sg_tx_put_at c done t t' : c_txs c = done ++ [Some t] -> c_txs_shifted c = 0%nat ->
+  tx_put c (length done) t' = c <| c_txs := done ++ [Some t'] |>.
+Proof.
+  intros H1 H2. unfold tx_put. rewrite H2, H1. assert (E0 : (length done <? 0)%nat = false) by reflexivity. rewrite E0, Nat.sub_0_r.
+  assert (L : (length done <? length (done ++ [Some t]))%nat = true) by (apply Nat.ltb_lt; rewrite app_length; cbn; lia). rewrite L.
+  rewrite wr_upd_app_exact. reflexivity.
+Qed.
+
+Section World.
+Context {w : sg_world}.
+Notation sg_cin := (sg_cinw w).
+Notation sg_mid := (sg_midw w).
+
+Lemma sg_cin_slot c d rd p hdr st prev rh t : sg_cin c d rd p hdr st prev rh t -> tx_slot c (length (w_done w)) = Some t.
+Proof. intros H. apply (sg_slot_at c _ t (ci_txs _ _ _ _ _ _ _ _ _ H) (ci_shift _ _ _ _ _ _ _ _ _ H)). Qed.
 
 (* a parser that differs only outside the fields of the invariant *)
 Lemma sg_cin_ext c c' d rd p hdr st prev rh t : sg_cin c d rd p hdr st prev rh t ->
   c_in_status c' = c_in_status c -> c_in_state c' = c_in_state c -> c_in_state_previous c' = c_in_state_previous c ->
   c_in c' = c_in c -> c_in_tx c' = c_in_tx c -> c_txs c' = c_txs c -> c_txs_shifted c' = c_txs_shifted c ->
+  c_conn_flags c' = c_conn_flags c -> c_out_next_tx_index c' = c_out_next_tx_index c ->
   sg_cin c' d rd p hdr st prev rh t.
-Proof. intros [A1 A2 A3 A4 A5 A6 A7 A8 A9 A10 A11 A12 A13 A14 A15] E1 E2 E3 E4 E5 E6 E7. constructor; rewrite ?E1, ?E2, ?E3, ?E4, ?E5, ?E6, ?E7; assumption. Qed.
-Lemma sg_cin_txs c d rd p hdr st prev rh t t' : sg_cin c d rd p hdr st prev rh t -> sg_cin (c <| c_txs := [Some t'] |>) d rd p hdr st prev rh t'.
-Proof. intros [A1 A2 A3 A4 A5 A6 A7 A8 A9 A10 A11 A12 A13 A14 A15]. constructor; try assumption; reflexivity. Qed.
+Proof. intros [A1 A2 A3 A4 A5 A6 A7 A8 A9 A10 A11 A12 A13 A14 A15 A16 A17] E1 E2 E3 E4 E5 E6 E7 E8 E9. constructor; rewrite ?E1, ?E2, ?E3, ?E4, ?E5, ?E6, ?E7, ?E8, ?E9; assumption. Qed.
+Lemma sg_cin_txs c d rd p hdr st prev rh t t' : sg_cin c d rd p hdr st prev rh t -> sg_cin (sg_settx w t' c) d rd p hdr st prev rh t'.
+Proof. intros [A1 A2 A3 A4 A5 A6 A7 A8 A9 A10 A11 A12 A13 A14 A15 A16 A17]. constructor; try assumption; reflexivity. Qed.
 Lemma sg_cin_state c d rd p hdr st prev rh t st' : sg_cin c d rd p hdr st prev rh t -> sg_cin (c <| c_in_state := st' |>) d rd p hdr st' prev rh t.
-Proof. intros [A1 A2 A3 A4 A5 A6 A7 A8 A9 A10 A11 A12 A13 A14 A15]. constructor; try assumption; reflexivity. Qed.
+Proof. intros [A1 A2 A3 A4 A5 A6 A7 A8 A9 A10 A11 A12 A13 A14 A15 A16 A17]. constructor; try assumption; reflexivity. Qed.
 Lemma sg_cin_prev c d rd p hdr st prev rh t pv : sg_cin c d rd p hdr st prev rh t -> sg_cin (c <| c_in_state_previous := pv |>) d rd p hdr st pv rh t.
-Proof. intros [A1 A2 A3 A4 A5 A6 A7 A8 A9 A10 A11 A12 A13 A14 A15]. constructor; try assumption; reflexivity. Qed.
+Proof. intros [A1 A2 A3 A4 A5 A6 A7 A8 A9 A10 A11 A12 A13 A14 A15 A16 A17]. constructor; try assumption; reflexivity. Qed.
 Lemma sg_cin_header c d rd p hdr st prev rh t h : sg_cin c d rd p hdr st prev rh t ->
   sg_cin (rq_set_in (fun k => k <| k_header := h |>) c) d rd p h st prev rh t.
-Proof. intros [A1 A2 A3 A4 A5 A6 A7 A8 A9 A10 A11 A12 A13 A14 A15]. constructor; try assumption; reflexivity. Qed.
+Proof. intros [A1 A2 A3 A4 A5 A6 A7 A8 A9 A10 A11 A12 A13 A14 A15 A16 A17]. constructor; try assumption; reflexivity. Qed.
 Lemma sg_cin_next c d rd p hdr st prev rh t nb : sg_cin c d rd p hdr st prev rh t ->
   sg_cin (rq_set_in (fun k => k <| k_next_byte := nb |>) c) d rd p hdr st prev rh t.
-Proof. intros [A1 A2 A3 A4 A5 A6 A7 A8 A9 A10 A11 A12 A13 A14 A15]. constructor; try assumption; reflexivity. Qed.
+Proof. intros [A1 A2 A3 A4 A5 A6 A7 A8 A9 A10 A11 A12 A13 A14 A15 A16 A17]. constructor; try assumption; reflexivity. Qed.
 (* htp_connp_req_clear_buffer *)
 Lemma sg_cin_clear c d rd p hdr st prev rh t : sg_cin c d rd p hdr st prev rh t -> sg_cin (req_clear_buffer c) d rd [] hdr st prev rh t.
 Proof.
-  intros [A1 A2 A3 A4 A5 A6 A7 A8 A9 A10 A11 A12 A13 A14 A15]. constructor; try assumption; try reflexivity.
+  intros [A1 A2 A3 A4 A5 A6 A7 A8 A9 A10 A11 A12 A13 A14 A15 A16 A17]. constructor; try assumption; try reflexivity.
   - cbn [req_clear_buffer rq_set_in c_in set k_consume k_read]. cbn. rewrite A6. lia.
   - cbn [req_clear_buffer rq_set_in c_in set k_consume k_read k_buf sg_olist]. cbn. rewrite A6, Nat.sub_diag. reflexivity.
 Qed.
@@ -124,7 +160,7 @@ Proof. intros H. apply (sg_cin_ext c); try reflexivity. exact H. Qed.
 Lemma sg_cin_adv c d rd p hdr st prev rh t b : sg_cin c d rd p hdr st prev rh t -> nth_error d rd = Some b ->
   sg_cin (rq_set_in (wr_kadv b) c) d (S rd) (p ++ [b]) hdr st prev rh t.
 Proof.
-  intros [A1 A2 A3 A4 A5 A6 A7 A8 A9 A10 A11 A12 A13 A14 A15] Hn.
+  intros [A1 A2 A3 A4 A5 A6 A7 A8 A9 A10 A11 A12 A13 A14 A15 A16 A17] Hn.
   assert (L : (rd < length d)%nat) by (apply nth_error_Some; rewrite Hn; discriminate).
   constructor; try assumption; try reflexivity.
   - cbn. rewrite A6. reflexivity.
@@ -133,6 +169,8 @@ Proof.
     rewrite (sg_slice_S d _ rd b A8 Hn), app_assoc, A9. reflexivity.
   - change (k_receiver (c_in (rq_set_in (wr_kadv b) c))) with (k_receiver (c_in c)). lia.
 Qed.
+
+End World.
 
 Lemma sg_peek c d : k_data (c_in c) = Some d -> k_len (c_in c) = length d ->
   rq_peek_next c = rq_set_in (fun k => k <| k_next_byte := nth_error d (k_read (c_in c)) |>) c.
@@ -147,22 +185,27 @@ Section Prim.
 Variable cb : cb_oracle.
 Variable g : cfg.
 Hypothesis Hcb : wr_all_ok cb.
+Context {w : sg_world}.
+Notation sg_cin := (sg_cinw w).
+Notation sg_mid := (sg_midw w).
 
 (* transaction updates through connp->in_tx *)
-Lemma sg_tx_upd c d rd p hdr st prev rh t f : sg_cin c d rd p hdr st prev rh t -> rq_tx_upd f c = c <| c_txs := [Some (f t)] |>.
+Lemma sg_tx_upd c d rd p hdr st prev rh t f : sg_cin c d rd p hdr st prev rh t -> rq_tx_upd f c = sg_settx w (f t) c.
 Proof.
-  intros H. rewrite (wr_rq_tx_upd_ok c 0 t f (ci_tx _ _ _ _ _ _ _ _ _ H) (sg_cin_slot _ _ _ _ _ _ _ _ _ H)).
-  apply (wr_tx_put0 c t _ (ci_txs _ _ _ _ _ _ _ _ _ H) (ci_shift _ _ _ _ _ _ _ _ _ H)).
+  intros H. rewrite (wr_rq_tx_upd_ok c _ t f (ci_tx _ _ _ _ _ _ _ _ _ H) (sg_cin_slot _ _ _ _ _ _ _ _ _ H)).
+  apply (sg_tx_put_at c _ t _ (ci_txs _ _ _ _ _ _ _ _ _ H) (ci_shift _ _ _ _ _ _ _ _ _ H)).
 Qed.
-Lemma sg_tx_put c d rd p hdr st prev rh t t' : sg_cin c d rd p hdr st prev rh t -> tx_put c 0 t' = c <| c_txs := [Some t'] |>.
-Proof. intros H. apply (wr_tx_put0 c t _ (ci_txs _ _ _ _ _ _ _ _ _ H) (ci_shift _ _ _ _ _ _ _ _ _ H)). Qed.
+Lemma sg_tx_put c d rd p hdr st prev rh t t' : sg_cin c d rd p hdr st prev rh t -> tx_put c (length (w_done w)) t' = sg_settx w t' c.
+Proof. intros H. apply (sg_tx_put_at c _ t _ (ci_txs _ _ _ _ _ _ _ _ _ H) (ci_shift _ _ _ _ _ _ _ _ _ H)). Qed.
+Lemma sg_tx_upd_at c d rd p hdr st prev rh t f : sg_cin c d rd p hdr st prev rh t -> tx_upd c (length (w_done w)) f = sg_settx w (f t) c.
+Proof. intros H. rewrite (wr_tx_upd_ok c _ t f (sg_cin_slot _ _ _ _ _ _ _ _ _ H)). apply (sg_tx_put c d rd p hdr st prev rh t _ H). Qed.
 
 (* htp_connp_req_buffer: what is in the chunk between consume and read goes to in_buf; the seen bytes are now all there *)
 Lemma sg_req_buffer c d rd p hdr st prev rh t : sg_cin c d rd p hdr st prev rh t ->
   (length p + length (sg_olist hdr) <= g_field_limit_hard g)%nat ->
   exists c', req_buffer g c = (ST_OK, c') /\ sg_cin c' d rd p hdr st prev rh t /\ sg_olist (k_buf (c_in c')) = p /\ k_consume (c_in c') = rd.
 Proof.
-  intros H Hlim. pose proof H as [A1 A2 A3 A4 A5 A6 A7 A8 A9 A10 A11 A12 A13 A14 A15].
+  intros H Hlim. pose proof H as [A1 A2 A3 A4 A5 A6 A7 A8 A9 A10 A11 A12 A13 A14 A15 A16 A17].
   unfold req_buffer. rewrite A4, A6.
   assert (E1 : (rd <? k_consume (c_in c))%nat = false) by (apply Nat.ltb_ge; lia). rewrite E1.
   destruct (rd - k_consume (c_in c) =? 0)%nat eqn:E2.
@@ -191,7 +234,7 @@ Lemma sg_consolidate c d rd p hdr st prev rh t : sg_cin c d rd p hdr st prev rh 
   (length p + length (sg_olist hdr) <= g_field_limit_hard g)%nat ->
   exists c', req_consolidate_data g c = (ST_OK, c', p) /\ sg_cin c' d rd p hdr st prev rh t.
 Proof.
-  intros H Hlim. pose proof H as [A1 A2 A3 A4 A5 A6 A7 A8 A9 A10 A11 A12 A13 A14 A15].
+  intros H Hlim. pose proof H as [A1 A2 A3 A4 A5 A6 A7 A8 A9 A10 A11 A12 A13 A14 A15 A16 A17].
   unfold req_consolidate_data. destruct (k_buf (c_in c)) as [b|] eqn:Eb.
   - destruct (sg_req_buffer c d rd p hdr st prev rh t H Hlim) as (c' & E & H' & B & _). rewrite E.
     exists c'. split; [|exact H']. unfold sg_olist in B. destruct (k_buf (c_in c')) as [b'|]; rewrite B; reflexivity.
@@ -203,14 +246,14 @@ Qed.
 Lemma sg_send_data c d rd p hdr st prev rh t last : sg_cin c d rd p hdr st prev rh t ->
   exists c', req_receiver_send_data cb last c = (ST_OK, c') /\ sg_cin c' d rd p hdr st prev rh t.
 Proof.
-  intros H. pose proof H as [A1 A2 A3 A4 A5 A6 A7 A8 A9 A10 A11 A12 A13 A14 A15].
+  intros H. pose proof H as [A1 A2 A3 A4 A5 A6 A7 A8 A9 A10 A11 A12 A13 A14 A15 A16 A17].
   unfold req_receiver_send_data. rewrite A11. destruct rh as [h|]; [|exists c; split; [reflexivity|exact H]].
   unfold run_data_hook. rewrite (wr_run_hook_ex cb Hcb). cbv iota.
   eexists. split; [reflexivity|].
   match goal with |- sg_cin (?x <| c_in := _ |>) _ _ _ _ _ _ _ _ => set (c1 := x) end.
   assert (H1 : sg_cin c1 d rd p hdr st prev (Some h) t).
   { unfold c1. destruct (_ <? _)%nat; apply sg_cin_hook; [|exact H]. apply (sg_cin_ext c); try reflexivity. exact H. }
-  clearbody c1. destruct H1 as [B1 B2 B3 B4 B5 B6 B7 B8 B9 B10 B11 B12 B13 B14 B15].
+  clearbody c1. destruct H1 as [B1 B2 B3 B4 B5 B6 B7 B8 B9 B10 B11 B12 B13 B14 B15 B16 B17].
   constructor; try assumption; try reflexivity. cbn. rewrite B6. lia.
 Qed.
 
@@ -223,7 +266,7 @@ Proof.
   destruct (sg_send_data c d _ p hdr st _ rh t false H) as (c1 & E1 & H1). rewrite E1.
   destruct (sg_req_buffer c1 d _ p hdr st _ rh t H1 Hlim) as (c2 & E2 & H2 & B2 & _). rewrite E2.
   eexists. split; [reflexivity|].
-  destruct H2 as [A1 A2 A3 A4 A5 A6 A7 A8 A9 A10 A11 A12 A13 A14 A15].
+  destruct H2 as [A1 A2 A3 A4 A5 A6 A7 A8 A9 A10 A11 A12 A13 A14 A15 A16 A17].
   constructor; try assumption; try reflexivity. right. reflexivity.
 Qed.
 
@@ -232,7 +275,7 @@ Lemma sg_state_change c d rd p hdr st prev rh t : sg_cin c d rd p hdr st prev rh
   req_handle_state_change cb c = (ST_OK, c <| c_in_state_previous := Some st |>) \/
   (req_handle_state_change cb c = (ST_OK, c) /\ prev = Some st).
 Proof.
-  intros [A1 A2 A3 A4 A5 A6 A7 A8 A9 A10 A11 A12 A13 A14 A15] Hne.
+  intros [A1 A2 A3 A4 A5 A6 A7 A8 A9 A10 A11 A12 A13 A14 A15 A16 A17] Hne.
   unfold req_handle_state_change. rewrite A3, A2.
   destruct (match prev with Some s => req_state_eqb s st | None => false end) eqn:E.
   - right. split; [reflexivity|]. destruct prev as [s|]; [|discriminate]. destruct s, st; try discriminate; reflexivity.
@@ -260,7 +303,7 @@ Lemma sg_enter c p hdr st rh t x : sg_mid c p hdr st rh t -> x <> [] ->
   exists c1, connp_req_data cb g (Some x) (length x) c = rq_loop cb g (rq_fuel (length x)) false c1 /\
              sg_cin c1 x 0 p hdr st (Some st) rh t.
 Proof.
-  intros [A1 A2 A3 A4 A5 A6 A7 A8 A9] Hne. unfold connp_req_data.
+  intros [A1 A2 A3 A4 A5 A6 A7 A8 A9 A10 A11] Hne. unfold connp_req_data.
   rewrite (sg_live_stop _ A1), (sg_live_error _ A1), A7.
   assert (L0 : (length x =? 0)%nat = false) by (destruct x; [contradiction|reflexivity]). rewrite L0. cbn [andb].
   match goal with |- context [(c_in_status ?y =? c_HTP_STREAM_TUNNEL)%Z] => change (c_in_status y) with (c_in_status c) end.
